@@ -6,6 +6,7 @@
   `Tu.spellCounts` (Model/Metrics.lean).  `Q.unit`, `Q.isOne`, `Q.isZero` are in Lemmas/MetricsL.lean.
 -/
 import TuModel.Lemmas.MetricsL
+import TuModel.Lemmas.GroupWordsL
 import TuModel.Props.C10
 import TuModel.Props.C18
 namespace Tu.C13
@@ -173,6 +174,30 @@ theorem spellCounts_pred_eq_target_fn (i t : List (List Nat)) (c : Counts)
       have := matchWords_self_snd _ _ h3 a hlt
       simp [List.contains_eq_mem, this]
   · simp at h
+
+/-! ### Priority 1 — the spelling-correction F1 functions never panic -/
+
+/-- `_group_words` never hits its closing assertion on whitespace-clean texts (every matching set) -/
+theorem groupWords_total (input pred : List (List Nat)) (hi : CleanB input = true) (hp : CleanB pred = true)
+    (matching : List Nat) : (groupWords input pred matching).isSome = true :=
+  groupWords_isSome input pred hi hp matching
+
+/-- hence the spelling counts are defined whenever the three word matchings are -/
+theorem spellCounts_total (input pred target : List (List Nat)) (hi : CleanB input = true) (hp : CleanB pred = true)
+    (h1 : (matchWords (splitAsciiWs input.flatten) (splitAsciiWs target.flatten)).isSome = true)
+    (h2 : (matchWords (splitAsciiWs input.flatten) (splitAsciiWs pred.flatten)).isSome = true)
+    (h3 : (matchWords (splitAsciiWs pred.flatten) (splitAsciiWs target.flatten)).isSome = true) :
+    (spellCounts input pred target).isSome = true := by
+  obtain ⟨mit, e1⟩ := Option.isSome_iff_exists.mp h1
+  obtain ⟨mip, e2⟩ := Option.isSome_iff_exists.mp h2
+  obtain ⟨mpt, e3⟩ := Option.isSome_iff_exists.mp h3
+  obtain ⟨c, ec⟩ := Option.isSome_iff_exists.mp (groupWords_total input pred hi hp (mpt.map Prod.fst))
+  simp only [spellCounts, e1, e2, e3, ec, Option.isSome_some]
+
+/-- non-vacuity: a merge (deleted whitespace), a split (inserted whitespace) and a deleted last word -/
+example : groupWords [[97], sp, [98]] [[97], [98]] [0] = some [1, 0] := by decide
+example : groupWords [[97], [98]] [[97], sp, [98]] [0, 1] = some [0] := by decide
+example : groupWords [[97], sp, [98]] [[97]] [] = some [] := by decide
 
 /-! ### non-vacuity -/
 
